@@ -15,7 +15,7 @@ def run_on(patch, pid, tier="quick"):
             r = subprocess.run(["git", "apply", "--whitespace=nowarn", patch], cwd=s, capture_output=True, text=True)
             if r.returncode != 0:
                 return ("PATCH-FAILED", 0, r.stderr[:200])
-        env = dict(os.environ, VERIF_REPO=s)
+        env = dict(os.environ, VERIF_REPO=s, VERIF_EVIDENCE_DIR=s + ".ev")
         t0 = time.time()
         p = subprocess.run([VERIF + "/check", pid, "--tier", tier], env=env, capture_output=True, text=True)
         viol = [l for l in p.stdout.splitlines() if l.startswith("VIOLATION")]
@@ -26,6 +26,7 @@ def run_on(patch, pid, tier="quick"):
         return (p.returncode, len(viol), sig, round(time.time() - t0))
     finally:
         shutil.rmtree(s, ignore_errors=True)
+        shutil.rmtree(s + ".ev", ignore_errors=True)
 
 
 def main():
@@ -35,13 +36,13 @@ def main():
     ap.add_argument("--skip-clean", action="store_true")
     a = ap.parse_args()
     jobs = []
-    pids = sorted({os.path.basename(f)[:3] for f in glob.glob(VERIF + "/selftest/mutants/C*.diff")})
+    pids = sorted({os.path.basename(f)[:3] for f in glob.glob(VERIF + "/selftest/mutants/[CX]*.diff")})
     if not a.skip_clean:
         for pid in [f"C{k:02d}" for k in range(1, 21)]:
             if a.only and pid != a.only:
                 continue
             jobs.append(("clean", pid, None, pid))
-    for f in sorted(glob.glob(VERIF + "/selftest/mutants/C*.diff")):
+    for f in sorted(glob.glob(VERIF + "/selftest/mutants/[CX]*.diff")):
         pid = os.path.basename(f)[:3]
         if a.only and pid != a.only:
             continue
